@@ -55,7 +55,8 @@ def run(ctx):
         for it, s in zip(e["items"], e["seen"])))
     evs.append(ev)
     if some == 0 or acc == 0 or adj_acc == 0:
-        raise vlib.ToolError("vacuity: adjusted=%d adjusted-and-accepted=%d adjusted-in-with_prices=%d" % (some, acc, adj_acc))
+        if not ctx.violations:
+            raise vlib.ToolError("vacuity: adjusted=%d adjusted-and-accepted=%d adjusted-in-with_prices=%d" % (some, acc, adj_acc))
     ctx.cov["adjusted"] = some
     ctx.cov["adjusted_and_accepted"] = acc
     ctx.cov["adjusted_inside_with_prices"] = adj_acc
